@@ -101,6 +101,53 @@ def one_run(ctx, drv, rng):
         ctx.coverage["samples"].append({"params": params, "algo": algo, "recount": m["recount"]["all"], "events_head": ev[:3]})
 
 
+def preempt_run(ctx, drv, rng):
+    """priority scheduler with preemption on small pools, cut off at a random tick: runs that end while suspensions are in flight"""
+    from eudoxia.workload import Workload
+    from eudoxia.workload.pipeline import Pipeline, Segment
+    from eudoxia.utils import Priority
+    from props.scommon import preempt_scenario
+    from common import num
+    sc = preempt_scenario(rng.randint(0, 10 ** 9))
+    c = sc["cfg"]
+    pls = []
+    for k, p in enumerate(sc["pipes"]):
+        pl = Pipeline(f"p{k}", Priority(p["prio"]))
+        ops = []
+        for o in p["ops"]:
+            op = pl.new_operator([ops[i] for i in o["parents"]] if o["parents"] else None)
+            for sg in o["segs"]:
+                op.add_segment(Segment(baseline_cpu_seconds=num(sg["base"]), cpu_scaling=sg["law"], memory_gb=None if sg["fixed"] is None else num(sg["fixed"]),
+                                       storage_read_gb=num(sg["read"])))
+            ops.append(op)
+        pls.append(pl)
+
+    class W(Workload):
+        def __init__(self):
+            self.t = 0
+        def run_one_tick(self):
+            out = [pls[i] for i in sc["arrivals"][self.t]] if self.t < len(sc["arrivals"]) else []
+            self.t += 1
+            return out
+
+    cut = rng.randint(4, 30)
+    params = {"duration": cut / c["tps"], "ticks_per_second": c["tps"], "num_pools": c["npools"], "cpus_per_pool": c["cpus"], "ram_gb_per_pool": num(c["ram"]),
+              "multi_operator_containers": True}
+    try:
+        stats, rec = layer_m.run_recorded(params, "priority", W())
+    except Exception as e:
+        return viol(ctx, "raised", f"run_simulator raised {type(e).__name__}: {e}", {"params": params})
+    ctx.coverage["evaluations"] += 1
+    ev = layer_m.history(rec)
+    m = drv.send("recount " + json.dumps(ev, separators=(",", ":")))
+    bad = compare(stats, m["recount"], params) + per_pipeline(rec)
+    ctx.sit("preemption_runs")
+    ctx.sit("suspensions_in_preemption_runs", stats.suspensions)
+    if bad:
+        return viol(ctx, "recount", "returned statistics differ from the recount: " + "; ".join(bad[:4]), {"params": params, "scenario": sc})
+    ctx.coverage["distinct_nontrivial"] += 1 if stats.assignments > 0 else 0
+
+
 def uncontended(ctx, drv, rng):
     """one pipeline, enough memory, nothing else running: it occupies exactly the ticks its operators need"""
     from eudoxia.workload import Workload
@@ -148,6 +195,8 @@ def run(ctx):
             one_run(ctx, drv, rng)
         for _ in range(40 if ctx.quick() else 400):
             uncontended(ctx, drv, rng)
+        for _ in range(60 if ctx.quick() else 600):
+            preempt_run(ctx, drv, rng)
     finally:
         drv.close()
     ctx.coverage["rule"] = ("run_simulator with a recording workload, a recording scheduler wrapper and a recording executor wrapper; the history of arrivals, "
